@@ -230,6 +230,15 @@ func c10(r *core.Run) {
 			st.hadOld = true
 		}
 	}
+	if !sweep && !dMissing && src.Bool(1, 4) {
+		// the left-over of a writer that was killed an hour ago: a half-written
+		// temporary file (never loadable: not a Spec name)
+		stale := st.D + "/spec.4711.tmp"
+		e.admin.WriteFile(stale, gen.Encode(newS, enc == 0)[:40], 0o600)
+		e.admin.SetMtime(stale, -3600_000)
+		r.Knob("stale_temp_file", true)
+		r.Probe("stale_temp_file_of_an_earlier_crash")
+	}
 	r.Notef("scenario %d: target %s, previous=%v (identical=%v), directory missing=%v", scen, st.target, st.hadOld, prev == 2, dMissing)
 	W := e.w.NewProc("writer", memfs.Cred{})
 	R := e.w.NewProc("reader", memfs.Cred{})
